@@ -19,14 +19,14 @@ func init() {
 		ID: "C06", Level: "exploration", Primary: "pipeline_shapes", EvalCount: "requests_numbered",
 		Rule: "one pipeline = N (1..256) requests of mixed operations on one connection, message IDs a random permutation-like draw (so Request.ID cannot be confused with the message ID), written in one " +
 			"segment or dribbled; some requests have no route (gaps in the observed numbering); a PRNG-chosen subset of handlers parks on a rendezvous: handler i returns only after handler i+d " +
-			"(or a handler on a second connection) has entered; a second family of pipelines performs a real StartTLS upgrade in the middle (numbering must continue across it); a third has its first handler blocked inside Write by a client that does not read (later handlers must still be entered). Oracle: Request.ID == 1-based position in the client's send order for every handler invocation; every rendezvous completes. " +
+			"(or a handler on a second connection) has entered; a second family of pipelines performs a real StartTLS upgrade in the middle (numbering must continue across it); a third has its first handler blocked inside Write by a client that does not read (later handlers must still be entered); a fourth repeats message IDs within the pipeline (requests identified by DN, every handler waiting for all others); a fifth keeps a handler blocked while its own connection ends (FIN, reset, Unbind, malformed frame) and requires connections that exist already and connections made afterwards to be served meanwhile. Oracle: Request.ID == 1-based position in the client's send order for every handler invocation; every rendezvous completes. " +
 			"distinct_nontrivial = distinct (N, operation mix, rendezvous pattern, write mode) signatures with at least one satisfied rendezvous",
 		Assume: []string{"extended requests are identified by the exact-name route that served them (their message ID is not exposed to handlers)",
 			"a rendezvous that does not complete within the watchdog is judged only by the recorded enter/exit order (serial dispatch), otherwise inconclusive"},
 		Phases: func(tier string, seed int64) []Phase {
 			return []Phase{{Name: "pipelines", Run: c06Run}}
 		},
-		MinObserved: []string{"requests_numbered", "rendezvous_satisfied", "cross_connection_rendezvous_satisfied", "pipelines_with_starttls_upgrade", "pipelines_with_a_handler_blocked_in_write", "requests_served_through_the_default_route"},
+		MinObserved: []string{"requests_numbered", "rendezvous_satisfied", "cross_connection_rendezvous_satisfied", "pipelines_with_starttls_upgrade", "pipelines_with_a_handler_blocked_in_write", "requests_served_through_the_default_route", "pipelines_with_repeated_message_ids", "connections_served_while_another_connections_handler_is_blocked"},
 	})
 }
 
@@ -596,10 +596,215 @@ func c06BlockedInWrite(c *Ctx, r *Rand, idx int) {
 	}
 }
 
+// c06OddMessageIDs: pipelines whose message IDs repeat (and include 0 and the largest value): the client's numbering is
+// none of the server's business - requests are still numbered by arrival and dispatched without waiting for one
+// another. Requests are identified by their DN; every handler returns only after ALL handlers of the pipeline have
+// been entered.
+func c06OddMessageIDs(c *Ctx, r *Rand, idx int) {
+	n := 3 + r.Intn(10)
+	idPool := pick(r, [][]int64{{1}, {1, 2}, {1, 2, 3}, {0, 1}, {7, 7, 8}, {1<<31 - 1, 1}, {5, 6, 7, 8, 9, 10, 11, 12, 13, 14, 15, 16, 17}})
+	var entered atomic.Int64
+	all := make(chan struct{})
+	var mu sync.Mutex
+	got := map[int]int{} // position -> Request.ID
+	srv, err := startSrv(SrvCfg{}, func(m *gldap.Mux) {
+		m.Delete(func(w *gldap.ResponseWriter, req *gldap.Request) {
+			dm, err := req.GetDeleteMessage()
+			if err != nil {
+				return
+			}
+			var pos int
+			fmt.Sscanf(dm.DN, "cn=p%d", &pos)
+			mu.Lock()
+			got[pos] = req.ID
+			mu.Unlock()
+			if entered.Add(1) == int64(n) {
+				close(all)
+			}
+			select {
+			case <-all:
+			case <-time.After(patience):
+			}
+			w.Write(req.NewResponse(gldap.WithApplicationCode(gldap.ApplicationDelResponse), gldap.WithResponseCode(0)))
+		})
+	})
+	if err != nil {
+		c.Inconclusive("server start: " + err.Error())
+		return
+	}
+	defer srv.StopWithin(patience)
+	cn, err := net.Dial("tcp", srv.Addr)
+	if err != nil {
+		c.Inconclusive("dial: " + err.Error())
+		return
+	}
+	defer cn.Close()
+	var buf []byte
+	var ids []int64
+	for i := 1; i <= n; i++ {
+		id := idPool[r.Intn(len(idPool))]
+		ids = append(ids, id)
+		buf = append(buf, sber.Message(id, sber.DelRequest([]byte(fmt.Sprintf("cn=p%d", i))), nil).Encode()...)
+	}
+	cn.Write(buf)
+	ok := false
+	select {
+	case <-all:
+		ok = true
+	case <-time.After(10 * time.Second):
+	}
+	c.Count("pipelines_with_repeated_message_ids", 1)
+	c.Count("requests_numbered", int64(n))
+	det := map[string]any{"message_ids": ids}
+	if !ok {
+		c.Violate("a blocked handler delays the dispatch of later requests", fmt.Sprintf("pipeline of %d requests with message IDs %v, every handler waiting for all of them to be entered: after 10s only %d had been handed to their handlers", n, ids, entered.Load()), det)
+	} else {
+		c.Count("rendezvous_satisfied", 1)
+		c.Distinct("pipeline_shapes", fmt.Sprintf("repeated-ids/%d/%d", n, len(idPool)))
+	}
+	mu.Lock()
+	for pos, rid := range got {
+		if rid != pos {
+			c.Violate("Request.ID is not the arrival position", fmt.Sprintf("request at position %d (message id %d) was numbered %d", pos, ids[pos-1], rid), det)
+			break
+		}
+	}
+	mu.Unlock()
+	cl := wrapClient(cn)
+	for i := 0; i < n && ok; i++ {
+		if _, err := cl.ReadMsg(2 * time.Second); err != nil {
+			break
+		}
+	}
+}
+
+// c06OtherConnections: a handler of connection A stays blocked (on something that is not socket I/O) while A itself
+// ends - by FIN, reset, Unbind or a malformed frame. Whatever the server does about A, nothing on OTHER connections may
+// wait for that handler: connections that exist already and connections made afterwards are served within 10s while
+// the handler is still held.
+func c06OtherConnections(c *Ctx, r *Rand, idx int) {
+	gate := make(chan struct{})
+	var parked atomic.Int64
+	srv, err := startSrv(SrvCfg{}, func(m *gldap.Mux) {
+		m.Search(func(w *gldap.ResponseWriter, req *gldap.Request) {
+			parked.Add(1)
+			select {
+			case <-gate:
+			case <-time.After(patience):
+			}
+			w.Write(req.NewSearchDoneResponse(gldap.WithResponseCode(0)))
+		})
+		m.Bind(func(w *gldap.ResponseWriter, req *gldap.Request) {
+			w.Write(req.NewBindResponse(gldap.WithResponseCode(0)))
+		})
+	})
+	if err != nil {
+		c.Inconclusive("server start: " + err.Error())
+		return
+	}
+	released := false
+	defer func() {
+		if !released {
+			close(gate)
+		}
+		srv.StopWithin(patience)
+	}()
+	bind := func(cl *Client, id int64) error {
+		cl.Send(sber.Message(id, sber.BindRequest(3, []byte("cn=other"), []byte("p")), nil).Encode())
+		m, err := cl.ReadMsg(10 * time.Second)
+		if err != nil {
+			return err
+		}
+		if m.ID != id || m.Op.Tag != sber.AppBindResponse {
+			return fmt.Errorf("unexpected answer")
+		}
+		return nil
+	}
+	old, err := dialRaw(srv.Addr, nil)
+	if err != nil {
+		c.Inconclusive("dial: " + err.Error())
+		return
+	}
+	defer old.Close()
+	if err := bind(old, 1); err != nil {
+		c.Inconclusive("first round trip: " + err.Error())
+		return
+	}
+	a, err := dialRaw(srv.Addr, nil)
+	if err != nil {
+		c.Inconclusive("dial: " + err.Error())
+		return
+	}
+	a.Send(sber.Message(2, sber.Search{Base: []byte("dc=x"), Scope: 2, Filter: sber.PresentFilter("cn"), Attrs: [][]byte{}}.Node(), nil).Encode())
+	for dl := time.Now().Add(patience); parked.Load() == 0 && time.Now().Before(dl); time.Sleep(200 * time.Microsecond) {
+	}
+	if parked.Load() == 0 {
+		c.Inconclusive("the handler to be held never started")
+		a.Close()
+		return
+	}
+	ending := pick(r, []string{"fin", "reset", "unbind", "malformed", "stays"})
+	switch ending {
+	case "fin":
+		a.Close()
+	case "reset":
+		a.Reset()
+	case "unbind":
+		a.Send(sber.Message(3, sber.UnbindRequest(), nil).Encode())
+	case "malformed":
+		a.Send([]byte{0x30, 0x03, 0x02, 0x01, 0x01, 0xff})
+	}
+	time.Sleep(time.Duration(1+r.Intn(20)) * time.Millisecond)
+	det := map[string]any{"ending_of_the_connection_with_the_blocked_handler": ending}
+	fail := func(what string, err error) {
+		c.Violate("a blocked handler delays other connections", fmt.Sprintf("a handler of a connection that ended by %q is still blocked; %s: %v", ending, what, err), det)
+	}
+	if err := bind(old, 4); err != nil {
+		fail("a connection that was already open is not answered within 10s", err)
+	}
+	for k := 0; k < 2+r.Intn(3); k++ {
+		done := make(chan error, 1)
+		go func() {
+			cl, err := dialRaw(srv.Addr, nil)
+			if err != nil {
+				done <- err
+				return
+			}
+			defer cl.Close()
+			done <- bind(cl, 5)
+		}()
+		select {
+		case err := <-done:
+			if err != nil {
+				fail("a connection made afterwards is not served within 10s", err)
+			} else {
+				c.Count("connections_served_while_another_connections_handler_is_blocked", 1)
+			}
+		case <-time.After(12 * time.Second):
+			fail("a connection made afterwards is not served", fmt.Errorf("no answer within 12s"))
+		}
+	}
+	c.Distinct("pipeline_shapes", "other-connections/"+ending)
+	close(gate)
+	released = true
+	if ending != "stays" {
+		a.Close()
+	} else {
+		a.ReadMsg(patience)
+		a.Close()
+	}
+}
+
 func c06Run(c *Ctx) {
 	pki := newPKI()
 	for i := 0; i < c.N(12, 200); i++ {
 		c06BlockedInWrite(c, c.Rng.Sub(fmt.Sprintf("bw%d", i)), i)
+	}
+	for i := 0; i < c.N(30, 500); i++ {
+		c06OddMessageIDs(c, c.Rng.Sub(fmt.Sprintf("ids%d", i)), i)
+	}
+	for i := 0; i < c.N(15, 200); i++ {
+		c06OtherConnections(c, c.Rng.Sub(fmt.Sprintf("oc%d", i)), i)
 	}
 	for i := 0; i < c.N(40, 600); i++ {
 		c06StartTLS(c, c.Rng.Sub(fmt.Sprintf("tls%d", i)), pki, i)
